@@ -16,6 +16,7 @@ def gen_cases(rng, tier, ctx):
     n = 2500 if tier == 'quick' else 40000
     cs = gen.encoder_cases(rng, tier, n, eci_share=10**9, op='rt')
     cs += gen.boundary_cases(rng, tier, per_cap=2 if tier == 'quick' else 6, op='rt')
+    cs += gen.constant_cases(rng, tier, op='rt')
     return cs
 
 
